@@ -4,16 +4,42 @@ import json
 import os
 
 VERIF = os.path.dirname(os.path.dirname(os.path.abspath(__file__)))
+COMMON_NOTE = ("Model = coq/Model/*.v, hand-written, evaluated inside coqc (vm_compute) on the implementation's own inputs; "
+               "Python == on metadata and hash-string caches are abstracted (DESIGN 3.2, 9); oracles: string-type parsers, re, "
+               "per-character Unicode tables, singularize; last mile judged by CPython / pydantic.v1 / attrs / dataclasses.")
+TECH = "Coq proof over an executable Gallina model + translator-regenerated definitions + differential correspondence + property oracle"
+
+
+def C(text, design, note=COMMON_NOTE, technique=TECH):
+    return dict(text=text, design=design, note=note, technique=technique)
+
+
 CLAIMED = {
-    "C08": dict(
-        text="Theorems about the Gallina model of DUnion construction / merge_field_sets / optimize_type (Props/C08.v: "
-             "normal form of every optimised raw term, second pass is the identity), tied to the code by the exact "
-             "(ordered) correspondence views X-infer and X-union — the latter exhaustive over every multiset of <=3 members "
-             "of a 35-type universe — and by the executable statement of the property run on the implementation.",
-        note="Model = coq/Model/{Base,Union,Merge,Optimize,Detect}.v evaluated inside coqc; Python == on metadata and hash-string "
-             "caches are abstracted (DESIGN 3.2, 9); oracles: string-type parsers.",
-        technique="Coq proof over an executable model + differential correspondence (vm_compute) + property oracle",
-        design="6 (C08)"),
+    "C01": C("Theorems (Props/C01.v): detection, union construction, field-set merge, simplification and generate() admit every sample "
+             "they were inferred from (generate_sound, unbounded), and the model-merging step (merge followed by optimize) keeps every "
+             "member's objects valid. The emitted text is tied byte-for-byte to the model's emitter (X-emit); acceptance by the loaded "
+             "classes (pydantic parse_obj / structural validator over evaluated annotations) is judged by the oracle on every case.", "6 (C01)"),
+    "C05": C("Theorems (Props/C05.v): the group-closure loop yields exactly the connected components of the comparator's answers and "
+             "terminates within its fuel; merged models have the union of their members' keys; untouched models keep index, name and "
+             "keys; the replacement list matches; every reference stays registered (closed graph invariant through process_meta_data, "
+             "_merge, merge_models). Comparator bodies are regenerated from registry.py (Gen/Cmp.v) and proved equal to the model's. "
+             "X-registry is exhaustive over all similarity graphs on <=5 (quick) / <=6 (thorough) models.", "6 (C05)"),
+    "C08": C("Theorems (Props/C08.v): every result of generate() is in the ordered normal form (generate_nfo, no hypothesis), a second "
+             "simplification pass is the identity and never fails (generate_second_pass_id/_total), optimize on raw terms yields nfo, "
+             "optimize is the identity on nfo terms. Tied by the exact (ordered) views X-infer and X-union — the latter exhaustive over "
+             "every multiset of <=3 members of a 35-type universe — and by the executable statement run on the implementation.", "6 (C08)"),
+    "C09": C("Theorems (Props/C09.v): first-match detection in registration order (iff), resolve keeps a type covering every member "
+             "under sound+acyclic replace pairs (refuted for cyclic pairs), str_result shape, disabled types never appear in generate() "
+             "output; registry registrations regenerated from the source (Gen/StrReg.v). parse/render/parse round trips of float and "
+             "date/time values are oracle-only (CPython dtoa, dateutil): partial.", "6 (C09)"),
+    "C10": C("Theorems (Props/C10.v): the overflow rule (<=15 literals, each < 20 chars) regenerated from complex.py equals the model's; "
+             "DUnion keeps exactly one literal holding exactly the observed plain strings iff no str member, no overflowed literal and "
+             "the folded set does not overflow, otherwise str; render limit (len < max, 0 or attrs => never). Annotation bytes tied by "
+             "X-emit; evaluated annotations of the loaded module judged by the oracle over the boundary stream.", "6 (C10)"),
+    "C13": C("Theorems (Props/C13.v): an object is detected as Dict iff it is empty, or the direct value of a named field, or all keys "
+             "match one regex (dict_decision_iff); otherwise a model with exactly its keys; element/values of containers are never "
+             "affected by the field option; Dict value type = union of the value types. Regex matching itself is an oracle (re); the "
+             "command-line anchoring is judged against re.fullmatch by the oracle: partial.", "6 (C13)"),
 }
 ALL = ["C%02d" % i for i in range(1, 20)]
 NOT_YET = "check not built yet in this revision (work in progress; the property is in scope of the method — see DESIGN.md section 6)"
